@@ -42,7 +42,8 @@ SkipOK(e) ==
           LET ax == e.afold[a].axis + 1
               nl == Prod(RemoveAt(e.shape, ax))
           IN /\ Len(e.afold[a].lanes) = nl
-             /\ \A t \in 0..(nl - 1) : VisitOK(LaneSeq(e.r, e.shape, ax, t), e.afold[a].lanes[t + 1])
+             \* the per-axis fold combines along the axis in logical order (as fold_axis does): exactly the kept elements, in order
+             /\ \A t \in 0..(nl - 1) : e.afold[a].lanes[t + 1] = KeptSeq(LaneSeq(e.r, e.shape, ax, t))
 
 (* The plain forms are specified (C05) for integer and floating-point elements; Option<T> is totally *)
 (* ordered by the standard library (None first) and is used here for the skip forms only.           *)
@@ -63,7 +64,7 @@ QSkipEvOK(e) ==
        /\ \A t \in DOMAIN e.lanes :
              LET k == keptOf(e.lanes[t]) IN
              IF Len(k) = 0 THEN e.res[t] = e.missing
-             ELSE e.res[t] # e.missing /\ QuantileValueOK(k, e.qis[t], e.strat, e.res[t], e.ty = "f64")
+             ELSE e.res[t] # e.missing /\ QuantileValueOK(k, e.qis[t], e.strat, e.res[t], e.ty \in {"f64", "opt_n64"})
        \* C03 for this routine: lanes keep their multisets, nothing else changes
        /\ Len(e.mem0) = Len(e.mem1)
        /\ LET A == AddrSet(e.g) IN \A c \in 0..(Len(e.mem0) - 1) : c \notin A => Cell(e.mem1, c) = Cell(e.mem0, c)
